@@ -200,6 +200,22 @@ example : 0x400 / 4 = 2 ^ 8 ∧ sramPageBits 0x400 256 = 0 ∧ sramSel 0x400 1 2
     2 ^ (bitsFor (768 - 1) - sramPageBits 0x400 768) = 0x400 / 4 ∧
     sramSel 0x400 2 768 (300 / 256) (bridgeAdr 32 14 (0x400 * 2 + 4 * (300 % 256))) = some 300 := by decide
 
+/-- **wide_mem_roundtrip.**  A CSR memory word `n` bus words wide: writing sub-words `x₀ … xₙ₋₁` at the successive
+    addresses assembles a word from which sub-word 0 (the first address) reads back as `x₀` — for every width, every
+    list (the general digit lemma is the accessor Horner proof; here the head, the position seeded change C14-r3m3
+    permutes), and the whole round trip on concrete 4- and 8-word memories. -/
+theorem wide_mem_roundtrip_head (dw x : Nat) (rest : List Nat) (hx : x < 2 ^ dw)
+    (hrest : wideWord dw rest < 2 ^ (dw * rest.length)) :
+    wideSub dw (rest.length + 1) (wideWord dw (x :: rest)) 0 = x := by
+  unfold wideSub
+  simp only [wideWord, Nat.add_sub_cancel, Nat.sub_zero, Nat.mod_eq_of_lt hx]
+  rw [Nat.mul_comm, Nat.mul_add_div (Nat.two_pow_pos _), Nat.div_eq_of_lt hrest, Nat.add_zero, Nat.mod_eq_of_lt hx]
+
+example : (List.range 4).map (wideSub 8 4 (wideWord 8 [0x11, 0x22, 0x33, 0x44])) = [0x11, 0x22, 0x33, 0x44] ∧
+    wideWord 8 [0x11, 0x22, 0x33, 0x44] = 0x11223344 ∧
+    (List.range 8).map (wideSub 32 8 (wideWord 32 [1, 2, 3, 4, 5, 6, 7, 8])) = [1, 2, 3, 4, 5, 6, 7, 8] ∧
+    sramSelWide 0x400 3 16 4 0 (3 * 256 + 4 * 5 + 2) = some (5, 2) := by decide
+
 /-! ## Generated accessors (big ordering) -/
 
 /-- **accessor_roundtrip_big (read).**  For every register size (any number of words for which a C type exists, i.e.
